@@ -736,7 +736,8 @@ def rf82(run):
     run.rule(rule, 'write_op, MIR_OP_MEM case, executed abstractly for the 32 combinations of zero / non-zero displacement, base, index, alias '
                    'and nonalias: a non-zero displacement is written by write_int, a base and an index by write_reg (the index with its '
                    'scale by write_uint), and when either alias name is present both names are written by write_name; the tag byte '
-                   'differs whenever the set of written fields differs (the reader takes the field set from the tag)')
+                   'differs whenever the set of written fields differs, and for every tag read_operand, executed the same way, consumes the same '
+                   'fields in the same order')
     tu = run.tu('mir')
     f = tu.func('write_op')
     run.functions_analysed.add(('mir', f.name))
@@ -750,6 +751,8 @@ def rf82(run):
     ty = dict(tu.enum('MIR_type_t'))
     n = 0
     tags = {}
+    wseq = {}
+    WM = {'write_type': 'type', 'write_int': 'int', 'write_reg': 'reg', 'write_uint': 'uint', 'write_name': 'name'}
     for disp, base, index, alias, nonalias in itertools.product((0, 7), (0, 1), (0, 2), (0, 3), (0, 4)):
         env = {'op.u.mem.disp': disp, 'op.u.mem.base': base, 'op.u.mem.index': index, 'op.u.mem.alias': alias, 'op.u.mem.nonalias': nonalias,
                'op.u.mem.scale': 8, 'op.u.mem.type': ty['MIR_T_I64'], 'output_mem_len': 0}
@@ -793,6 +796,50 @@ def rf82(run):
         elif isinstance(got['put_byte'][0], int):
             fields = (bool(disp) or not (base or index), bool(base), bool(index), bool(alias or nonalias))
             tags.setdefault(got['put_byte'][0], set()).add(fields)
+            wseq.setdefault(got['put_byte'][0], [k_ for k_ in (WM.get(nm) for nm, v in log) if k_])
+    # reader side: for every tag the writer produced, read_operand consumes exactly the fields the writer emitted, in the same order
+    g = tu.func('read_operand')
+    run.functions_analysed.add(('mir', g.name))
+    gsw = [s_ for s_ in R.find_switches(g) if F.src(s_['c'][0]).strip() == 'tag']
+    if not gsw:
+        raise F.AnalysisBroken('read_operand: switch on the tag not found')
+    gregs = R.switch_regions(g, gsw[0])
+    WMAP = {'write_type': 'type', 'write_int': 'int', 'write_reg': 'reg', 'write_uint': 'uint', 'write_name': 'name'}
+    for t in sorted(wseq):
+        idx = [i for i, r_ in enumerate(gregs) if any(lo is not None and lo <= t <= (hi if hi is not None else lo) for (nm_, lo, hi) in r_['cases'])]
+        if not idx:
+            n += 1
+            run.ob(rule, ('reader', t), False)
+            run.violation(rule, g, 'tag %d not read' % t, 'read_operand has no case for tag %d, which write_op produces for a memory operand' % t, line=gsw[0]['l'])
+            continue
+        stmts_r = []
+        j = idx[0]
+        while True:
+            stmts_r += gregs[j]['stmts']
+            if gregs[j]['falls_into'] is None:
+                break
+            j = gregs[j]['falls_into']
+        rlog = []
+
+        def rrec(kind):
+            def fn(args, env_, ex, kind=kind):
+                rlog.append(kind)
+                return 1
+            return fn
+        racc = {'read_type': rrec('type'), 'read_disp': rrec('int'), 'read_reg': rrec('reg'), 'read_uint': rrec('uint'), 'read_name': rrec('name'),
+                'MIR_new_mem_op': lambda a, e, x: 1, 'MIR_alias': lambda a, e, x: 1, 'strcmp': lambda a, e, x: 1}
+        rex = PE.PrintExec(tu, {}, racc, {})
+        renv = {'tag': t, 'alias_p': 0}
+        for st in stmts_r:
+            r_ = rex.run(st, renv)
+            if r_ in ('break', 'return'):
+                break
+        n += 1
+        ok = rlog == wseq[t]
+        run.ob(rule, ('reader', t), ok, {'tag': t, 'written': wseq[t], 'read': rlog})
+        if not ok:
+            run.violation(rule, g, 'reader of tag %d' % t, 'for tag %d write_op emits the fields %s but read_operand consumes %s: the stream is '
+                          'misread from this operand on' % (t, wseq[t], rlog), line=gsw[0]['l'])
     for t, fs in sorted(tags.items()):
         n += 1
         ok = len(fs) == 1
